@@ -8,6 +8,8 @@ package main
 import (
 	"encoding/json"
 	"fmt"
+	"path/filepath"
+	"runtime"
 
 	"github.com/brutella/hc/characteristic"
 	"github.com/brutella/hc/service"
@@ -77,6 +79,31 @@ func checkC15(c *Ctx) {
 		}
 		c.Violate(f.Signature(), id, map[string]string{"theorem": "Hc.Props.C15." + f.Theorem, "constructor": f.Ctor, "field": f.Field,
 			"reproduce": "call the constructor in a program importing github.com/brutella/hc and print the field"}, f.Expected, f.Observed)
+	}
+	// the same dump on a 32-bit build (GOARCH=386 binaries run on the amd64 host): the rules hold there too and the rows
+	// are the same — the catalog does not depend on the width of `int`
+	if runtime.GOARCH == "amd64" && !c.Skip("catalog-386") {
+		d32, err := s.RunDumpArch(c.Repo, filepath.Join(c.ScratchDir(), "dump386"), "386")
+		if err != nil {
+			c.Mismatch("dump-386", "catalog-386", "constructor dump built with GOARCH=386", "builds and runs", trunc(err.Error(), 400))
+		} else {
+			for _, f := range catalog.Check(s, d32) {
+				c.Violate(f.Signature()+" (32-bit build)", "catalog386#"+f.Theorem+"/"+f.Ctor+"/"+f.Field, map[string]string{"theorem": "Hc.Props.C15." + f.Theorem, "constructor": f.Ctor, "field": f.Field,
+					"reproduce": "GOARCH=386: call the constructor in a program importing github.com/brutella/hc and print the field"}, f.Expected, f.Observed)
+			}
+			for i := range d.Rows {
+				if i >= len(d32.Rows) {
+					break
+				}
+				x, _ := json.Marshal(d.Rows[i])
+				y, _ := json.Marshal(d32.Rows[i])
+				if string(x) != string(y) {
+					c.Violate("a constructor yields something else on a 32-bit build: "+d.Rows[i].Pkg+"."+d.Rows[i].Ctor, "catalog386#row/"+rowCase(d.Rows[i]), map[string]string{"constructor": d.Rows[i].Pkg + "." + d.Rows[i].Ctor, "reproduce": "build with GOARCH=386 and with GOARCH=amd64, call the constructor, print the object"}, string(x), string(y))
+					break
+				}
+			}
+			c.Count("catalog-386", len(d32.Rows) == len(d.Rows), "stream:dump-386")
+		}
 	}
 	if c.Thorough() && c.Only == "" {
 		_, d2 := catalogOf(c)
